@@ -32,6 +32,8 @@ def _step(g, st, o, ni, ai, idv, s):
     before_ids = sorted(n.id for n in g.nodes)
     if o == 0 or o == 1:
         nd = AttackGraphNode(type='or', name='x%d' % s)
+        if o == 0 and ni == 1 and g.nodes:
+            nd.id = g.nodes[0].id          # a node object that already carries an id (e.g. taken from another graph)
         explicit = IDS[idv] if o == 1 else None
         used = explicit is not None and g.get_node_by_id(explicit) is not None
         try:
@@ -145,6 +147,11 @@ def body_hist(cube, **kw):
     if kw['r']:
         a.compromise(nodes[1])
         a.entry_points = [nodes[1]]
+        with notrace():
+            a2 = Attacker(name='second')   # (a shared name would run into the known finding C10-attackers-keyed-by-name on save/load)
+            g.add_attacker(a2)
+        a2.compromise(nodes[1])
+        a2.compromise(nodes[2])
     with notrace():
         r = wellformed(g, st['seen_ids'], st['seen_names'])
     if r:
@@ -152,7 +159,7 @@ def body_hist(cube, **kw):
     for s in range(k):
         # arguments are read lazily: only those the operation uses become decisions
         o = idx(kw['o%d' % s], len(OPS))
-        ni = idx(kw['n%d' % s], 3) if o in (2, 6, 7) else 0
+        ni = idx(kw['n%d' % s], 3) if o in (2, 6, 7) else (idx(kw['n%d' % s], 2) if o == 0 else 0)
         ai = idx(kw['a%d' % s], 2) if o in (5, 6, 7) else 0
         idv = idx(kw['i%d' % s], len(IDS)) if o in (1, 4) else 0
         with notrace(), reclimit():
